@@ -657,7 +657,7 @@ def rule_std_width(ctx, px, rule_id: str):
             return None
         return kind if pol else (("gt", kind[1]) if kind[0] == "le" else ("le", kind[1]))
 
-    def analyse(fn, w, value_of, label, rel, outer=None, enum_seq=None):
+    def analyse(fn, w, value_of, label, rel, outer=None, enum_seq=None, module=None):
         """value_of(expr) -> the integer width an assigned/returned expression stands for, or None"""
         found = []      # (lower bound exclusive, upper bound inclusive, selected width)
         closed = False
@@ -693,6 +693,11 @@ def rule_std_width(ctx, px, rule_id: str):
                 e = pyfront.subst_locals(fn, e)
                 if isinstance(e, ast.Name) and outer is not None:
                     e = pyfront.subst_locals(outer, e)
+                if isinstance(e, ast.Name) and module is not None:
+                    # a module-level constant table
+                    defs_ = [st_.value for st_ in module.tree.body if isinstance(st_, ast.Assign) and any(isinstance(t_, ast.Name) and t_.id == e.id for t_ in st_.targets)]
+                    if len(defs_) == 1:
+                        e = defs_[0]
                 return e
             ok = False
             for n in ast.walk(fn):
@@ -792,8 +797,14 @@ def rule_std_width(ctx, px, rule_id: str):
     inner = [n for n in ast.walk(nst.node) if isinstance(n, ast.FunctionDef) and n is not nst.node]
     sel = next((n for n in inner if len(n.args.args) == 1), None)
     if sel is None:
+        # ... or a private module-level function that is handed the bit length
+        for c in ast.walk(nst.node):
+            if isinstance(c, ast.Call) and isinstance(c.func, ast.Name) and c.func.id in pm.funcs and len(c.args) == 1 and ast.unparse(c.args[0]).endswith(".bit_length") \
+                    and len(pm.funcs[c.func.id].node.args.args) == 1:
+                sel = pm.funcs[c.func.id].node
+    if sel is None:
         raise AnalysisError("anchor missing: width selector inside filter_numpy_scalar_type")
-    analyse(sel, sel.args.args[0].arg, const_int, f"filter_numpy_scalar_type.{sel.name}", pm.rel, outer=nst.node)
+    analyse(sel, sel.args.args[0].arg, const_int, f"filter_numpy_scalar_type.{sel.name}", pm.rel, outer=nst.node, module=pm)
     tparam = nst.node.args.args[-1].arg
     calls = [c for c in ast.walk(nst.node) if isinstance(c, ast.Call) and isinstance(c.func, ast.Name) and c.func.id == sel.name]
     ok = bool(calls) and all(len(c.args) == 1 and ast.unparse(c.args[0]) == f"{tparam}.bit_length" for c in calls)
